@@ -41,7 +41,15 @@ def sub_basis(rng):
     nb = rng.choice([1, 2, 2, 3, 4, 5])
     un = sorted(rng.sample(UNARY, nu), key=UNARY.index)
     bi = sorted(rng.sample(BINARY, nb), key=BINARY.index)
+    if rng.random() < 0.7:
+        # the tree-rewriting code (update_tree / update_sums) is written for bases whose binary operators include
+        # + and * (all shipped bases do); most sub-bases respect that, the rest probe outside it
+        bi = sorted(set(bi) | {'+', '*'}, key=BINARY.index)
     return [["x", "a"], un, bi]
+
+
+def in_supported_domain(basis):
+    return basis is None or ('+' in basis[2] and '*' in basis[2])
 
 
 def basis_name(basis):
